@@ -6,7 +6,7 @@ CONSTANTS
   MaxW = 100000
   WFull = 1
   RecvMax = 1024
-  Hows = {"close", "atexit"}
+  HowSets = {{"close", "atexit"}}
   MaxClose = 100000
 CONSTRAINT Report
 INVARIANT TypeOK
